@@ -559,20 +559,55 @@ func (s *identitySafeDAGService) Add(ctx context.Context, nd ipld.Node) error {
 	return s.DAGService.Add(ctx, nd)
 }
 
+// identitySafeBuilder is the CID builder handed to the DAG builder when the
+// configured prefix uses the identity hash. Raw leaves are immutable once built,
+// so identitySafeDAGService cannot rescue them: their CID has to be right when
+// it is computed. Blocks that fit into an identity digest keep the identity
+// prefix, larger ones are hashed with the fallback prefix. For dag-pb it hands
+// out the plain prefix, so ProtoNodes are handled exactly as before (checked
+// when they are added / finished).
+type identitySafeBuilder struct {
+	prefix   cid.Prefix
+	fallback cid.Prefix
+}
+
+func (b identitySafeBuilder) Sum(data []byte) (cid.Cid, error) {
+	if len(data) > verifcid.DefaultMaxIdentityDigestSize {
+		return b.fallback.Sum(data)
+	}
+	return b.prefix.Sum(data)
+}
+
+func (b identitySafeBuilder) GetCodec() uint64 { return b.prefix.Codec }
+
+func (b identitySafeBuilder) WithCodec(c uint64) cid.Builder {
+	if c == cid.DagProtobuf {
+		p := b.prefix
+		p.Codec = c
+		return p
+	}
+	p, f := b.prefix, b.fallback
+	p.Codec, f.Codec = c, c
+	return identitySafeBuilder{prefix: p, fallback: f}
+}
+
 func (dm *DagModifier) appendData(nd ipld.Node, spl chunker.Splitter) (ipld.Node, error) {
 	// Create a wrapper DAGService that handles identity overflow automatically.
 	// This allows small appends to preserve identity while preventing overflow errors.
 	dagserv := dm.dagserv
+	var cidBuilder cid.Builder = dm.Prefix
 	if dm.Prefix.MhType == mh.IDENTITY {
-		dagserv = &identitySafeDAGService{
-			DAGService: dm.dagserv,
-			fallbackPrefix: cid.Prefix{
-				Version:  dm.Prefix.Version,
-				Codec:    dm.Prefix.Codec,
-				MhType:   util.DefaultIpfsHash,
-				MhLength: -1,
-			},
+		fallback := cid.Prefix{
+			Version:  dm.Prefix.Version,
+			Codec:    dm.Prefix.Codec,
+			MhType:   util.DefaultIpfsHash,
+			MhLength: -1,
 		}
+		dagserv = &identitySafeDAGService{
+			DAGService:     dm.dagserv,
+			fallbackPrefix: fallback,
+		}
+		cidBuilder = identitySafeBuilder{prefix: dm.Prefix, fallback: fallback}
 	}
 
 	switch nd := nd.(type) {
@@ -591,7 +626,7 @@ func (dm *DagModifier) appendData(nd ipld.Node, spl chunker.Splitter) (ipld.Node
 		dbp := &help.DagBuilderParams{
 			Dagserv:    dagserv,
 			Maxlinks:   dm.MaxLinks,
-			CidBuilder: dm.Prefix,
+			CidBuilder: cidBuilder,
 			RawLeaves:  dm.RawLeaves,
 		}
 		db, err := dbp.New(spl)
@@ -629,7 +664,7 @@ func (dm *DagModifier) appendData(nd ipld.Node, spl chunker.Splitter) (ipld.Node
 		dbp := &help.DagBuilderParams{
 			Dagserv:    dagserv,
 			Maxlinks:   dm.MaxLinks,
-			CidBuilder: dm.Prefix,
+			CidBuilder: cidBuilder,
 			RawLeaves:  true, // Ensure future leaves are raw for consistency
 		}
 		db, err := dbp.New(spl)
